@@ -3,6 +3,8 @@
 package telegram
 
 import (
+	"bytes"
+	"compress/gzip"
 	"reflect"
 
 	"github.com/xelaj/mtproto/internal/encoding/tl"
@@ -63,6 +65,15 @@ func candidatesFor(top uint32) []uint32 {
 	return out
 }
 
+// cutLen: W words, or fewer, optionally cut one byte short (every word boundary and an unaligned cut)
+func cutLen(W int) int {
+	n := 4 * verifrt.Len(W)
+	if n > 0 && verifrt.Bool() {
+		n--
+	}
+	return n
+}
+
 func le32s(v uint32) []byte { return []byte{byte(v), byte(v >> 8), byte(v >> 16), byte(v >> 24)} }
 
 // H_C15_unknown: constructor id (k-th registered id, enums included) followed by up to W arbitrary 32-bit
@@ -76,10 +87,11 @@ func H_C15_unknown(k, W, hinted int) {
 	}
 	top := all[k]
 	verifrt.Note(tl.VerifRegistry()[top].String())
-	n := verifrt.Len(4 * W)
+	n := cutLen(W)
 	b := append(le32s(top), verifrt.Bytes(n)...)
 	verifrt.MapCandidates(candidatesFor(top))
 	verifrt.AllocBudget(16*len(b) + 4096)
+	verifrt.AllocSampling(3, 1)
 	var err error
 	var o tl.Object
 	pn := verifrt.Catch(func() {
@@ -92,6 +104,7 @@ func H_C15_unknown(k, W, hinted int) {
 	if pn {
 		verifrt.Note("panic: " + verifrt.PanicMsg())
 	}
+	verifrt.AllocCheck()
 	verifrt.Assert(!pn, "decode-unknown-arbitrary-no-panic")
 	if !pn && err == nil {
 		verifrt.Cover("accepted")
@@ -112,16 +125,18 @@ func H_C15_named(k, W int) {
 		verifrt.Assert(true, "not-a-pointer-type")
 		return
 	}
-	n := verifrt.Len(4 * W)
+	n := cutLen(W)
 	b := append(le32s(sid[k]), verifrt.Bytes(n)...)
 	verifrt.MapCandidates(candidatesFor(sid[k]))
 	verifrt.AllocBudget(16*len(b) + 4096)
+	verifrt.AllocSampling(3, 1)
 	w := reflect.New(pt.Elem())
 	var err error
 	pn := verifrt.Catch(func() { err = tl.Decode(b, w.Interface()) })
 	if pn {
 		verifrt.Note("panic: " + verifrt.PanicMsg())
 	}
+	verifrt.AllocCheck()
 	verifrt.Assert(!pn, "decode-named-arbitrary-no-panic")
 	_ = err
 }
@@ -138,4 +153,50 @@ func H_C15_anyid(W int) {
 		verifrt.Note("panic: " + verifrt.PanicMsg())
 	}
 	verifrt.Assert(!pn, "decode-unknown-anyid-no-panic")
+}
+
+// H_C15_container: msg_container id followed by arbitrary words (negative / huge counts and sizes included).
+func H_C15_container(W int) {
+	n := cutLen(W)
+	b := append(le32s(0x73f1f8dc), verifrt.Bytes(n)...)
+	verifrt.AllocBudget(16*len(b) + 4096)
+	verifrt.AllocSampling(3, 2)
+	pn := verifrt.Catch(func() { _, _ = tl.DecodeUnknownObject(b) })
+	if pn {
+		verifrt.Note("panic: " + verifrt.PanicMsg())
+	}
+	verifrt.AllocCheck()
+	verifrt.Assert(!pn, "container-arbitrary-no-panic")
+}
+
+func gzipOf(inner []byte) []byte {
+	var buf bytes.Buffer
+	w := gzip.NewWriter(&buf)
+	_, _ = w.Write(inner)
+	_ = w.Close()
+	return buf.Bytes()
+}
+
+// H_C15_gzip: gzip_packed carrying (a) a properly packed arbitrary inner body, (b) arbitrary bytes that are not
+// a gzip stream.  Value or error, never a panic.
+func H_C15_gzip(W, packed int) {
+	var payload []byte
+	if packed != 0 {
+		inner := verifrt.Bytes(4 * verifrt.Len(W))
+		payload = gzipOf(inner)
+	} else {
+		payload = verifrt.Bytes(verifrt.Len(4 * W))
+	}
+	b := append(le32s(0x3072cfa1), refTLString(payload)...)
+	verifrt.MapCandidates(candidatesFor(0x3072cfa1))
+	verifrt.AllocSampling(3, 2)
+	var err error
+	pn := verifrt.Catch(func() { _, err = tl.DecodeUnknownObject(b) })
+	if pn {
+		verifrt.Note("panic: " + verifrt.PanicMsg())
+	}
+	verifrt.Assert(!pn, "gzip-arbitrary-no-panic")
+	if !pn && packed == 0 {
+		_ = err
+	}
 }
